@@ -807,7 +807,58 @@ class GenArr(K):
         return ["n%s=i:%d" % (self.n, len(a)), "%s=a:%s" % (self.n, "".join("%d," % v for v in a))]
 
 
-ARG_KINDS_C = [IntVal, DblVal, BoolVal, BoolOut, BoolInout, IntOut, IntInout, HiddenOut, ArrIn, ArrInout, ArrOut, ArrAllocOut,
+class VoidPtr(K):
+    """`void *p`: the caller's type(C_PTR) holds the address of an integer target; the library prints the integer it
+    finds at the address it receives and whether a second look at the same argument list gives the same address.
+    One class per spelling of the declaration (const / explicit intent(in)): the documented interface is
+    `type(C_PTR), value, intent(IN)` for all of them"""
+    nvals = len(INTS)
+    spelling = "void *%s"
+    cconst = ""
+
+    def yaml(self): return self.spelling % self.n
+    def cparam(self, lang): return "%svoid *%s" % (self.cconst, self.n)
+    def body(self, lang): return ['printf(" %s=vp:%%d", *(const int *) %s);' % (self.n, self.n)]
+    def fdecl(self): return ["integer(C_INT), target :: %s_t" % self.n, "type(C_PTR) :: %s" % self.n]
+    def fset(self, r):
+        v = INTS[r % 4]
+        return ["%s_t = %s" % (self.n, "(-2147483647_C_INT - 1_C_INT)" if v == -2147483648 else "%d_C_INT" % v),
+                "%s = c_loc(%s_t)" % (self.n, self.n)]
+    def lib_tokens(self, r, cnt, env): return ["%s=vp:%d" % (self.n, INTS[r % 4])]
+
+
+class VoidPtrConst(VoidPtr):
+    spelling = "const void *%s"
+    cconst = "const "
+
+
+class VoidPtrIntentIn(VoidPtr):
+    spelling = "void *%s +intent(in)"
+
+
+class VoidPtrConstIntentIn(VoidPtr):
+    spelling = "const void *%s +intent(in)"
+    cconst = "const "
+
+
+class VoidPtrExpr(VoidPtrConst):
+    """the actual is the expression c_loc(array): the library sums the elements behind the address"""
+    nvals = 3
+
+    def yaml(self): return "const void *%s, int n%s" % (self.n, self.n)
+    def cparam(self, lang): return "const void *%s, int n%s" % (self.n, self.n)
+    def body(self, lang):
+        return ['printf(" n%s=i:%%d %s=a:", n%s);' % (self.n, self.n, self.n),
+                '{ int i_; for (i_ = 0; i_ < n%s; i_++) printf("%%d,", ((const int *) %s)[i_]); }' % (self.n, self.n)]
+    def fdecl(self): return ["integer(C_INT), target :: %s_a(3)" % self.n]
+    def fset(self, r): return ["%s_a = [3, -4, 5]" % self.n]
+    def factual(self, r): return "c_loc(%s_a), %d_C_INT" % (self.n, [0, 1, 3][r % 3])
+    def lib_tokens(self, r, cnt, env):
+        a = [3, -4, 5][:[0, 1, 3][r % 3]]
+        return ["n%s=i:%d" % (self.n, len(a)), "%s=a:%s" % (self.n, "".join("%d," % v for v in a))]
+
+
+ARG_KINDS_C = [VoidPtr, VoidPtrConst, VoidPtrIntentIn, VoidPtrConstIntentIn, VoidPtrExpr, IntVal, DblVal, BoolVal, BoolOut, BoolInout, IntOut, IntInout, HiddenOut, ArrIn, ArrInout, ArrOut, ArrAllocOut,
                PtrPtrOut, PtrPtrOutN, PtrPtrOut3, ArrAllocOutN, ImplText, CharArrIn, CstrIn, CstrOut, CstrInout,
                StructVal, StructPtrIn, StructPtrInout, EnumVal]
 ARG_KINDS_CXX = ARG_KINDS_C + [IntRefOut, StringIn, StringOut, StringInout, VecIn, VecOut, VecOutAlloc, VecInout, VecInoutAlloc, VecStrIn, StructRefIn, StructRefInout]
@@ -972,6 +1023,8 @@ def fixed_spec(cxx):
     for i, res in enumerate(RES_DIM3):
         funcs.append(Func("rf%d" % i, res, [DimArg("fa%d" % i), DimArg2("fb%d" % i), DimArg3("fc%d" % i)]))
     funcs.append(Func("gvoid", "void", [GenVoid("addr")]))
+    # void * next to a character argument: the bufferify / CFI clone carries the void * parameters too
+    funcs.append(Func("vmix", "int", [VoidPtrConst("pvl"), CstrIn("pvs"), VoidPtr("pvr"), VoidPtrIntentIn("pvi")]))
     funcs.append(Func("arnk", "int", [AssumedRank("av")]))     # calls at rank 0, 1 and F_assumed_rank_max
     # pointer results that a bufferify / cfi function returns unchanged (raw char*, scalar native pointer)
     funcs.append(Func("rraw", "craw", [CstrOut("ro"), IntVal("rq")]))
@@ -1344,6 +1397,8 @@ KIND_OF = {
     "VecIn": ["vectorIn"], "VecOut": ["vectorOut"], "VecOutAlloc": ["vectorOutAlloc"], "VecInout": ["vectorInout"],
     "VecInoutAlloc": ["vectorInoutAlloc"], "PtrPtrOut": ["ptrPtrOut"], "PtrPtrOutN": ["ptrPtrOut"], "PtrPtrOut3": ["ptrPtrOut"],
     "CharArrIn": ["charArrayIn"], "VecStrIn": ["vecStrIn"],
+    "VoidPtr": ["voidPtr"], "VoidPtrConst": ["voidPtr"], "VoidPtrIntentIn": ["voidPtr"], "VoidPtrConstIntentIn": ["voidPtr"],
+    "VoidPtrExpr": ["voidPtr"],
 }
 KIND_OF_RES = {"craw": "native", "iscal": "native", "int": "native", "double": "native", "bool": "boolResult(default block)", "chr": "charScalarResult", "cstr_len": "charResult",
                "string_len": "stringResult", "vecres": "vectorResultAlloc", "iptr": "resultPointer", "ialloc": "resultAlloc",
@@ -1353,7 +1408,7 @@ MODELLED_KINDS = ["boolIn", "boolOut", "boolInout", "charIn", "charOut", "charIn
                   "charResult", "stringResult", "charScalarResult", "native", "nativeOutAlloc", "vectorIn", "vectorOut",
                   "vectorOutAlloc", "vectorInout", "vectorInoutAlloc", "vectorResult", "vectorResultAlloc", "ptrPtrOut",
                   "resultPointer", "resultAlloc", "charArrayIn", "charResultAlloc", "stringResultAlloc", "stringValResultAlloc",
-                  "vecStrIn", "vecStrOut", "vecStrInout", "structArg"]
+                  "vecStrIn", "vecStrOut", "vecStrInout", "structArg", "voidPtr"]
 import collections as _collections
 KIND_RUNS = _collections.Counter()   # kind -> number of (function, configuration) executions whose trace matched
 
